@@ -919,8 +919,9 @@ static void skip_line () {
 
   while (((c = *yyp++) != '\n') && (c != LEX_EOF));
 
-  /* Next read of this '\n' will do refill_buffer() if neccesary */
-  if (c == '\n')
+  /* Next read of this '\n' will do refill_buffer() if neccesary;
+   * an end of file has to be seen by yylex() as well (it ends the include file) */
+  if (c == '\n' || c == LEX_EOF)
     yyp--;
   outptr = yyp;
 }
